@@ -507,3 +507,98 @@ Proof.
   exact (proj2 HI).
 Qed.
 
+
+
+(** * Once the registration channel is closed, a poll returns Pending only because a sink said so *)
+
+(** req/rep *)
+Definition rr_pending_answer (e : rev) : bool :=
+  match e with VSink _ _ RPending => true | _ => false end.
+
+Definition ClosedInv (s : rst) : Prop := rclosed s = true -> after_handle (rctl s) = false.
+
+Lemma closedinv_internal s s' : ClosedInv s -> rinternal s = Some s' -> ClosedInv s' /\ (rctl s' = RReturn false -> rclosed s' = false).
+Proof.
+  unfold ClosedInv. intros HC H. unfold rinternal in H.
+  crush_matches H; injection H as <-;
+    try match goal with Hc : rctl s = _ |- _ => rewrite Hc in HC end; cbn [after_handle] in HC;
+    split; rsimp; cbn [after_handle];
+    first [ discriminate | reflexivity | (intros _; reflexivity) | assumption
+          | (intros Hcl; specialize (HC Hcl); discriminate) | (intros _; assumption)
+          | (intros Hcl; congruence)
+          | (intros _; destruct (rclosed s); [specialize (HC eq_refl); discriminate|reflexivity]) ].
+Qed.
+
+Lemma is_sink_ev_on_pending l op e : is_sink_ev_on l op e = Some RPending -> rr_pending_answer e = true.
+Proof.
+  unfold is_sink_ev_on. destruct e as [| | | | |l' op' r|]; try discriminate.
+  destruct (l =? l'); [|discriminate].
+  destruct op, op'; try discriminate; try (destruct (frame_eqb f f0); try discriminate);
+    intros H; injection H as ->; reflexivity.
+Qed.
+
+Lemma closedinv_step_raw s e s' : ClosedInv s -> rstep_raw s e = Some s' ->
+  ClosedInv s' /\ (rctl s' = RReturn false -> rclosed s' = true -> rr_pending_answer e = true).
+Proof.
+  unfold ClosedInv. intros HC H. unfold rstep_raw, router_pass in H.
+  crush_matches H; injection H as <-;
+    try match goal with Hc : rctl s = _ |- _ => rewrite Hc in HC end; cbn [after_handle] in HC;
+    split; rsimp; try match goal with Hc : rctl s = _ |- _ => rewrite ?Hc end; cbn [after_handle rr_pending_answer];
+    first [ discriminate | reflexivity | (intros _; reflexivity) | (intros _ _; reflexivity) | assumption
+          | (intros Hcl; specialize (HC Hcl); discriminate) | (intros _; assumption)
+          | (intros Hcl; congruence) | (intros _ Hcl; specialize (HC Hcl); discriminate)
+          | (subst; cbn [rr_pending_answer]; intros; reflexivity)
+          | (intros _ _; subst; eapply is_sink_ev_on_pending; eassumption) ].
+Qed.
+
+Lemma rinternal_closed s s' : rinternal s = Some s' -> rclosed s' = rclosed s.
+Proof. intros H. unfold rinternal in H. crush_matches H; injection H as <-; rsimp; first [reflexivity|congruence]. Qed.
+
+Lemma rstep_raw_closed s e s' : rstep_raw s e = Some s' -> rclosed s = true -> rclosed s' = true.
+Proof.
+  intros H Hc. unfold rstep_raw, router_pass in H. crush_matches H; injection H as <-; rsimp; first [exact Hc|reflexivity].
+Qed.
+
+Lemma closed_settle fuel : forall s s',
+  ClosedInv s -> rclosed s = true -> rsettle fuel s = Some s' ->
+  ClosedInv s' /\ rclosed s' = true /\ (rctl s' = RReturn false -> s' = s).
+Proof.
+  induction fuel as [|k IH]; intros s s' HC Hcl H; cbn [rsettle] in H; [discriminate|].
+  destruct (rinternal s) as [s1|] eqn:E.
+  - destruct (closedinv_internal _ _ HC E) as [HC1 Hret].
+    assert (Hcl1 : rclosed s1 = true) by (rewrite (rinternal_closed _ _ E); exact Hcl).
+    destruct (IH s1 s' HC1 Hcl1 H) as (HC' & Hcl' & Hsame).
+    split; [exact HC'|]. split; [exact Hcl'|].
+    intros Hr. specialize (Hsame Hr). subst s'. specialize (Hret Hr). congruence.
+  - injection H as <-. auto.
+Qed.
+
+Theorem rr_closed_pending_only_from_sinks tr s e s' :
+  rrun rinit tr = Some s -> rclosed s = true -> rstep s e = Some s' -> rctl s' = RReturn false ->
+  rr_pending_answer e = true.
+Proof.
+  intros Hrun Hcl Hstep Hret.
+  assert (HC : ClosedInv s).
+  { revert Hrun. apply (lift_run ClosedInv).
+    - intros a b Ha Hi. exact (proj1 (closedinv_internal a b Ha Hi)).
+    - intros a ev b Ha Hr. exact (proj1 (closedinv_step_raw a ev b Ha Hr)).
+    - unfold ClosedInv. cbn. discriminate. }
+  unfold rstep, obind in Hstep.
+  destruct (rsettled s) as [s0|] eqn:E0; [|discriminate].
+  destruct (closed_settle _ _ _ HC Hcl E0) as (HC0 & Hcl0 & _).
+  assert (Hone : forall a, ClosedInv a -> rclosed a = true ->
+                 match rstep_raw a e with Some x => rsettled x | None => None end = Some s' ->
+                 rr_pending_answer e = true).
+  { intros a Ha Hca Hb. destruct (rstep_raw a e) as [x|] eqn:Ex; [|discriminate].
+    destruct (closedinv_step_raw _ _ _ Ha Ex) as [HCx Hp].
+    pose proof (rstep_raw_closed _ _ _ Ex Hca) as Hcx.
+    destruct (closed_settle _ _ _ HCx Hcx Hb) as (_ & _ & Hsame).
+    specialize (Hsame Hret). subst x. now apply Hp. }
+  destruct (rctl s0) eqn:Ec0; try (now apply Hone with s0).
+  destruct e; try (now apply Hone with s0).
+  destruct (rstep_raw s0 (VStream l r)) as [s1|] eqn:E1; [|discriminate].
+  destruct (closedinv_step_raw _ _ _ HC0 E1) as [HC1 _].
+  pose proof (rstep_raw_closed _ _ _ E1 Hcl0) as Hcl1.
+  now apply Hone with s1.
+Qed.
+
